@@ -1,17 +1,15 @@
-"""Registry of checks: property id -> parts (group binary, test function, shards, deadlines)."""
+"""Registry of checks: one JSON fragment per property under lib/checks/<id>.json:
+{"level": "model_checking"|"exploration"|..., "parts": [{"name","group","test","shards":{"quick":n,"thorough":n},
+ "deadline":{"quick":s,"thorough":s}, "thorough_only":bool, "env":{...}}], "assumptions": [...],
+ "meta": {"text","design_ref","note","technique"}}"""
+import glob
+import json
+import os
 
-def part(name, group, test, q=1, t=None, dq=240, dt=2400, **kw):
-    d = {"name": name, "group": group, "test": test, "shards": {"quick": q, "thorough": t or q}, "deadline": {"quick": dq, "thorough": dt}}
-    d.update(kw)
-    return d
-
-CHECKS = {
-    "C13": {
-        "level": "model_checking",
-        "parts": [part("a-interleavings", "shard", "TestC13a", q=16, t=16)],
-        "assumptions": [
-            "scheduling points are the lock acquisitions of endpointshards.go (sync shim); unsynchronised accesses are the business of a separate free-running -race pass",
-            "sequential consistency between scheduling points (no weak-memory reorderings)",
-        ],
-    },
-}
+CHECKS = {}
+for _f in sorted(glob.glob(os.path.join(os.path.dirname(os.path.abspath(__file__)), "checks", "C*.json"))):
+    _c = json.load(open(_f))
+    for _p in _c["parts"]:
+        _p.setdefault("shards", {"quick": 1, "thorough": 1})
+        _p.setdefault("deadline", {"quick": 240, "thorough": 2400})
+    CHECKS[os.path.basename(_f)[:-5]] = _c
